@@ -13,6 +13,7 @@ PROGRAMS = {
     'busy': 'x = 0\nwhile True:\n    x += 1\n',
     'printing': 'while True:\n    print("spam")\n',
     'swallow-exception': 'while True:\n    try:\n        while True:\n            pass\n    except Exception:\n        pass\n',
+    'swallow-exception-printing': 'n = 0\nwhile True:\n    try:\n        n += 1\n        if n % 100000 == 0:\n            print("tick")\n    except Exception:\n        pass\n',
     'swallow-base': 'while True:\n    try:\n        while True:\n            pass\n    except BaseException:\n        pass\n',
     'blocking-lock': 'import threading\nlock = threading.Lock()\nlock.acquire()\nlock.acquire()\n',
     'sleepy': 'import time\nwhile True:\n    time.sleep(0.01)\n',
@@ -52,6 +53,10 @@ def oracle(case, r):
             return ('abandoned-thread-keeps-printing', 'the abandoned thread swallowed the termination and its later print() landed '
                     'in the NEXT execution\'s captured output: %r' % r['next_output'])
         return ('next-output', 'output of the next execution is %r' % r['next_output'])
+    if not r.get('student_dead_at_end', True) and 'BaseException' not in case['program'] and 'acquire' not in case['program']:
+        # code that does not catch BaseException cannot survive the termination
+        return ('abandoned-thread-still-running', 'the timed-out student thread of %r is still running a second after the next execution '
+                'finished although the program never catches BaseException' % case['name'])
     if r['exception_after_next'] is not None:
         return ('next-exception', 'the next (clean) execution ends with exception %s' % r['exception_after_next'])
     if r['patch_depth'] or r['stdout_depth'] or not r['stdout_restored']:
@@ -60,7 +65,7 @@ def oracle(case, r):
 
 
 def correspondence(ctx):
-    progs = list(PROGRAMS) if ctx.tier != 'quick' else ['busy', 'printing', 'swallow-base', 'convert-exit', 'finish-late']
+    progs = list(PROGRAMS) if ctx.tier != 'quick' else ['busy', 'printing', 'swallow-exception', 'swallow-exception-printing', 'swallow-base', 'convert-exit', 'finish-late']
     scheds = ['N', 'A', 'B', 'C']
     cases = [{'name': p, 'program': PROGRAMS[p], 'schedule': s, 'allowed': 0.3} for p in progs for s in scheds]
     res = vlib.run_impl('c14_impl.py', {'cases': cases}, timeout=1200)
